@@ -615,6 +615,15 @@ func (s *Store) gcIndex(ctx context.Context) error {
 			}
 		}
 	}
+	// keep the by-digest entries of manifests that stay reachable (for example
+	// the manifests nested in a tagged index): a reload indexes from them
+	for ref, desc := range refMap {
+		if ref == desc.Digest.String() && graph.Exists(desc) {
+			if err := tagResolver.Tag(ctx, deleteAnnotationRefName(desc), ref); err != nil {
+				return err
+			}
+		}
+	}
 	s.tagResolver = tagResolver
 	s.graph = graph
 	return nil
